@@ -427,14 +427,15 @@ def optimize_log_lbfgsb(p0, data, model_func, pts,
     if lower_bound is None:
         lower_bound = [None] * len(p0)
     else:
-        lower_bound = numpy.log(lower_bound)
-        lower_bound[numpy.isnan(lower_bound)] = None
+        # None entries and negative bounds (nan) leave the log-parameter unbounded
+        lower_bound = numpy.log(numpy.array(lower_bound, dtype=float))
+        lower_bound[numpy.isnan(lower_bound)] = -numpy.inf
     lower_bound = _project_params_down(lower_bound, fixed_params)
     if upper_bound is None:
         upper_bound = [None] * len(p0)
     else:
-        upper_bound = numpy.log(upper_bound)
-        upper_bound[numpy.isnan(upper_bound)] = None
+        upper_bound = numpy.log(numpy.array(upper_bound, dtype=float))
+        upper_bound[numpy.isnan(upper_bound)] = numpy.inf
     upper_bound = _project_params_down(upper_bound, fixed_params)
     bounds = list(zip(lower_bound,upper_bound))
 
